@@ -14,6 +14,8 @@ if [ -d "$sd/demo/tests" ]; then
 else
   demo=$(ls "$sd"/demo/*.rs | head -1); t=$(basename "$demo" .rs)
   cp "$demo" tests/
+  # feature directories next to the test file go next to it under tests/ as well
+  for d in "$sd"/demo/*/; do [ -d "$d" ] && cp -r "$d" tests/; done
 fi
 cargo test --offline --all-features --test "$t" -- --test-threads=1 >/tmp/confirm_$name.head.log 2>&1; head_rc=$?
 git apply "$sd/patch.diff" || { echo "$name: patch does not apply"; exit 1; }
